@@ -15,8 +15,9 @@ AGENT = os.path.join(os.path.dirname(os.path.abspath(__file__)), "pkgagent.py")
 
 
 class PackageCopy:
-    def __init__(self, repo, iban_files=None, bank_files=None, keep_bundled_iban=True, keep_bundled_bank=False):
-        """iban_files / bank_files: {file name: JSON-able document} written in addition to (or instead of) the bundled ones."""
+    def __init__(self, repo, iban_files=None, bank_files=None, keep_bundled_iban=True, keep_bundled_bank=False, other_files=None):
+        """iban_files / bank_files: {file name: JSON-able document} written in addition to (or instead of) the bundled ones.
+        other_files: {path relative to the package: text} - files that are NOT registry files (wrong suffix, sub-directory)."""
         self.repo = repo
         self.dir = tempfile.mkdtemp(prefix="verif-pkg-")
         src = os.path.join(repo, "schwifty")
@@ -37,6 +38,11 @@ class PackageCopy:
             for name, doc in (files or {}).items():
                 with open(os.path.join(dst, sub, name), "w", encoding="utf-8") as fp:
                     json.dump(doc, fp)
+        for rel, text in (other_files or {}).items():
+            path = os.path.join(dst, rel)
+            os.makedirs(os.path.dirname(path), exist_ok=True)
+            with open(path, "w", encoding="utf-8") as fp:
+                fp.write(text)
         self.iban_dir = os.path.join(dst, "iban_registry")
         self.bank_dir = os.path.join(dst, "bank_registry")
 
